@@ -1022,6 +1022,105 @@ def ignore_success_case(ctx, case):
 COMPONENTS['ignore_success'] = ignore_success_case
 
 
+def rewrite_case(ctx, case):
+    """'Early outgoing listeners run before the write': what such a
+    listener does to the packet (censor a chat message, fill in a field,
+    rename the login) is what gets written, and the ordinary outgoing
+    listeners afterwards see the packet as it was written.
+    case {version, compress, msgs [..], forced [bool..], rename: bool}"""
+    import time
+    from minecraft.networking.packets import serverbound as sb
+    version = case['version']
+    ctx.ev()
+    login = [('compress', case['compress'])] \
+        if case.get('compress') is not None else []
+    srv = servers.Server({'version': version, 'login': login + [('success',)],
+                          'play': {'bursts': [], 'end': 'silent'}})
+    world = vnet.World(servers=[srv])
+    after = []
+    with vnet.installed(world):
+        conn, o = servers.make_connection(world, allowed_versions={version},
+                                          username='RealName')
+
+        def censor(p):
+            p.message = p.message.replace('secret', '******') + '!'
+        conn.register_packet_listener(censor, sb.play.ChatPacket,
+                                      early=True, outgoing=True)
+        if case.get('rename'):
+            def rename(p):
+                p.name = 'Renamed'
+            conn.register_packet_listener(rename, sb.login.LoginStartPacket,
+                                          early=True, outgoing=True)
+        conn.register_packet_listener(
+            lambda p: after.append(p.message), sb.play.ChatPacket,
+            outgoing=True)
+        try:
+            conn.connect()
+            for _ in range(5000):
+                if srv.play_started and world.links:
+                    break
+                time.sleep(0.001)
+            world.wait_idle(world.links[0], conn)
+            flags = case.get('forced') or [False]
+            for i, m in enumerate(case['msgs']):
+                conn.write_packet(sb.play.ChatPacket(message=m),
+                                  force=flags[i % len(flags)])
+            ok = world.wait_idle(world.links[0], conn)
+            excs = [repr(e[0]) for e in o.exceptions]
+            conn.disconnect()
+            state = world.settle()
+        except Exception as e:
+            ctx.fail('rewrite', 'D-raised', case, exc=e)
+            world.kill_all()
+            return
+    if not ok or state != 'done' or srv.errors or excs:
+        ctx.fail('rewrite', 'D2-malformed-client-stream', case,
+                 (ok, state, srv.errors[:2], excs[:2]))
+        world.kill_all()
+        return
+    want = [m.replace('secret', '******') + '!' for m in case['msgs']]
+    chat_id = servers.packet_info(version, 'sb_chat')[0]
+    got = [servers.decode(version, 'sb_chat', pl)['message']
+           for pid, pl in srv.other_play_frames if pid == chat_id]
+    if sorted(got) != sorted(want) or (
+            not any(case.get('forced') or [False]) and got != want):
+        ctx.fail('rewrite', 'D3-early-listener-change-not-written', case,
+                 got[:6], want[:6])
+        return
+    if sorted(after) != sorted(want):
+        ctx.fail('rewrite', 'D3-late-listener-saw-another-packet', case,
+                 after[:6], want[:6])
+        return
+    want_name = 'Renamed' if case.get('rename') else 'RealName'
+    if srv.login_name != want_name:
+        ctx.fail('rewrite', 'D3-early-listener-change-not-written', case,
+                 srv.login_name, want_name)
+        return
+    ctx.nt('rewrite', repr(case))
+    ctx.label('rewrite')
+
+
+COMPONENTS['rewrite'] = rewrite_case
+
+
+def t_rewrite(ctx):
+    k = 0
+    for v in (757, 340, 47):
+        for comp in (None, 0, 64):
+            for msgs in (['my secret plan'], ['a', 'secret secret', 'x' * 100],
+                         ['m%d secret' % i for i in range(40)]):
+                for forced in ([False], [True], [False, True]):
+                    k += 1
+                    rewrite_case(ctx, {'version': v, 'compress': comp,
+                                       'msgs': msgs, 'forced': forced,
+                                       'rename': bool(k % 2)})
+    ctx.sample({'version': 340, 'compress': 64, 'msgs': ['my secret plan'],
+                'forced': [False], 'rename': True}, 'rewrite')
+    ctx.exhaustive_done('early outgoing listeners that rewrite the packet: '
+                        '3 protocols x 3 compression modes x 3 message sets '
+                        'x queued / forced / mixed')
+
+
 def t_ignore_success(ctx):
     for v in (757, 340, 47):
         ignore_success_case(ctx, {'version': v,
@@ -1038,7 +1137,8 @@ def t_random(ctx, n):
 
 def tasks(tier):
     q = tier == 'quick'
-    tl = [('fixed', t_fixed, {}), ('ignore_success', t_ignore_success, {})]
+    tl = [('fixed', t_fixed, {}), ('ignore_success', t_ignore_success, {}),
+          ('rewrite', t_rewrite, {})]
     for i in range(10 if q else 16):
         tl.append(('random_%d' % i, t_random, dict(n=300 if q else 2500)))
     for i in range(2 if q else 4):
